@@ -161,7 +161,7 @@ def graph(idx, fi):
 
 # -------------------------------------------------------------------------------------------------
 
-def atomic(rep, rule, idx, fi, verified=(), enumerate_paths=False):
+def atomic(rep, rule, idx, fi, verified=(), enumerate_paths=False, _depth=0):
     """Validate-before-mutate: no raise point is reachable after a mutation of observable state."""
     fg = graph(idx, fi)
     g = fg.g
@@ -175,13 +175,35 @@ def atomic(rep, rule, idx, fi, verified=(), enumerate_paths=False):
     ok = True
     for m in muts:
         # same node both mutates and raises: only fine if the callee is itself verified atomic
+        if m in raisers and isinstance(g.nodes[m].ast, ast.Raise):
+            # a raise statement whose own expression (its message, say) changes state: the call fails *after* the change
+            rep.bad(rule, fi.site, fg.text(m)[:90], "the raise statement itself mutates observable state while it builds the exception ("
+                    + ", ".join(".".join((w[1],) + w[2]) for w in fg.writes(m)[:3]) + "): the refused call is not without effect",
+                    mutation=fg.text(m))
+            ok = False
+            continue
         if m in raisers:
             callee_sites = {r.site for r in raisers[m]}
             if not any(any(s.endswith(v) for v in verified) for s in callee_sites):
-                rep.unk(rule, fi.site, fg.text(m), "statement both mutates observable state and may raise; "
-                        "the order inside the callee is not covered by a verified-atomic summary")
-                ok = False
-                continue
+                # decide the callees themselves: when each of them validates before it mutates, so does this statement as a unit
+                callees = []
+                for cl in fg.calls_in(m):
+                    f_ = cl.func
+                    if isinstance(f_, ast.Attribute) and isinstance(f_.value, ast.Name) and f_.value.id == "self" and fi.cls is not None:
+                        t_ = idx.lookup_method(fi.cls, f_.attr)
+                        if t_ is not None and t_.node is not fi.node:
+                            callees.append(t_)
+                resolved = {c_.site for c_ in callees}
+                if _depth < 2 and callees and any(s in resolved for s in callee_sites):
+                    sub_ok = all(atomic(rep, rule, idx, c_, verified, False, _depth + 1) for c_ in callees)
+                    if not sub_ok:
+                        ok = False
+                        continue
+                else:
+                    rep.unk(rule, fi.site, fg.text(m), "statement both mutates observable state and may raise; "
+                            "the order inside the callee is not covered by a verified-atomic summary")
+                    ok = False
+                    continue
         after = g.reachable([s for s, lab in g.succ[m] if lab != "exc"])
         bad = sorted(r for r in raisers if r in after and not (r == m))
         for r in bad:
